@@ -176,6 +176,7 @@ def run(prog, rep, tier, cfg):
     X.accumulator_integrity('K12', 'running-totals', ['fil_actor_miner'], 'running totals of amounts')
     X.no_dropped_results('K14', 'results-not-discarded', ['fil_actor_miner'], 'no Result of a call is discarded')
     X.tolerated_failures('K15', 'tolerated-failures', ['fil_actor_miner'], 'tolerated failures are the reviewed ones')
+    X.write_sites_preserved('K16', 'updates-present', 'fil_actor_miner', ['State.locked_funds', 'State.vesting_funds', 'BeneficiaryTerm.used_quota'], 'state updates do not disappear')
 
 
 
